@@ -48,7 +48,7 @@ def has_kind(d, kinds):
 def run(tier, seed):
     chk = Check("C03", LEVEL, tier, seed)
     rnd = random.Random(seed)
-    chk.assumptions += ["oracle covers the constructs listed in the module header; tables with alignment, footnotes, definition lists and math are not in the reference yet (footnote structure: C10; text/escaping: C04)",
+    chk.assumptions += ["oracle covers the constructs listed in the module header; outside the reference: nested lists, tables inside quotes, a footnote called twice, reference-style images",
                         "projection: canonical form = carriage returns removed, line feeds removed outside <pre>...</pre>", "compatibility mode has no fenced code, figures, super/subscript or heading ids; those constructs are compared in MMD mode only",
                         "adjacent blocks that merge by the syntax rules (list+list, list+indented, quote+quote, paragraph + '---') are excluded by the generator (Unambiguous)"]
     gs = tlc.run("Html", GEN % ("FALSE", 0, "single"), workers=NCPU, timeout=900)
